@@ -390,6 +390,36 @@ def rule_r7_plain(ctx, prog, rule="R7"):
                         trav_detail = ("the iterator of the scan is advanced by `%s` before the scan: the element taken out is never the "
                                        "subject of a comparison when it is the only one (a lone NaN is not reported)" % anm)
         ctx.ob(rule, "%s/whole-array" % name, trav_ok, root.where(), trav_detail, what="not every element is compared")
+        # (iii) value forms: what is handed back is the scan's running value itself – the fold's own result, or the variable the
+        # scanning loop updates – with nothing substituted afterwards (`.map(|_| first)`, `.and(first)`, a clamp, ...)
+        if not name.startswith("arg") and good:
+            from .rules_result import payload_local
+            okr, rdetail = True, "the scan's own result is returned"
+            ex = root.exits()
+            n_succ = 0
+            for d in (root.reaching_defs(0, ex[0], "term") if ex else []):
+                e = strip(root.def_expr(0, d))
+                if isinstance(e, tuple) and ((e[0] == "agg" and e[2] == "Err") or (e[0] == "call" and e[1] == "from_residual")):
+                    continue
+                n_succ += 1
+                if d[0] != "entry" and d[1] == "term":
+                    if not any(sb is root and sbb == d[0] for (sb, sbb, _e, _d) in good):
+                        okr, rdetail = False, "the success value is `%s`, not the result of the scan" % fmt(e)[:100]
+                    continue
+                L = payload_local(root, d)
+                in_loop = False
+                if L is not None:
+                    for (sb, sbb, _e, _d) in good:
+                        if sb is not root:
+                            continue
+                        tgt = root.term(sbb).get("target")
+                        loop = {x for x in root.reachable_from(tgt) if sbb in root.reachable_from(x)} if tgt is not None else set()
+                        if any(dd[0] in loop for dd in root.defs_of(L) if dd[0] != "entry"):
+                            in_loop = True
+                if not in_loop:
+                    okr, rdetail = False, "the success value is `%s`, not the running extremum of the scan" % fmt(e)[:100]
+            ctx.ob(rule, "%s/returns-the-scan-result" % name, okr and n_succ > 0, root.where(), rdetail,
+                   what="extremum replaced after the scan")
         # (iv) arg forms: the returned pattern and the running value are updated together from one indexed_iter item
         if name.startswith("arg"):
             b = root
